@@ -113,7 +113,9 @@ def table_index_out_of_range(ops, P, ver):
         if a is None:
             continue
         for cat, n in lim.items():
-            if op in P[cat] and a >= n:
+            # (a negative operand - 3.11+ reports operands of 2**31 and more as the signed int they are kept in - indexes
+            # nothing either)
+            if op in P[cat] and (a >= n or a < 0):
                 return True
     return False
 
